@@ -45,6 +45,9 @@ if not a.skip_confirm:
     meta["demo_patched_tail"] = out1[-600:]
 props = (a.props.split(",") if a.props else [a.prop])
 assert sh("git status --porcelain", "/repo")[1].strip() == "", "/repo not clean"
+# evidence files written while the patch is applied must not survive: they are restored afterwards
+evbak = "/tmp/seed_eval_evidence_%d" % os.getpid()
+shutil.copytree("/verif/evidence", evbak)
 rc, o = sh("git apply %s" % patch, "/repo")
 assert rc == 0, o
 res = {}
@@ -57,6 +60,9 @@ try:
         print(p, "exit", rc, "\n   " + "\n   ".join(l[:300] for l in lines[:6]))
 finally:
     sh("git checkout -- . && git clean -fdq esr", "/repo")
+    for f in os.listdir(evbak):
+        shutil.copy(os.path.join(evbak, f), os.path.join("/verif/evidence", f))
+    shutil.rmtree(evbak, ignore_errors=True)
 assert sh("git status --porcelain", "/repo")[1].strip() == "", "/repo not clean after revert"
 meta["checks"] = res
 meta["caught_by"] = [p for p, r in res.items() if r["exit"] == 1]
